@@ -42,7 +42,14 @@ for w in ['user_read', 'user_write', 'user_exec', 'user_all', 'group_read', 'gro
                           f'the &Metadata wrapper behind column {w} returns the mode predicate of st_mode (and false when '
                           f'no unix mode is available)'))
 
-CANARIES = [dict(harness=M + 'canary_mode_must_fail', units=['mode'])]
+CK = 'util::capabilities::verif_kani::'
+NU = 'util::verif_kani_names::'
+OBLIGATIONS.append(_o('C04.caps.names', CK + 'c04_caps_names', 'table of parse_capabilities (every check_cap! invocation, extracted each run): bit k names capability k of linux/capability.h for k = 0..40 (cap_chown .. cap_checkpoint_restore)', engine='F', units=('caps',)))
+OBLIGATIONS.append(_o('C04.caps.layout', CK + 'c04_caps_layout', 'vfs_cap_data layout: permitted / inheritable words at bytes 4..8, 8..12, 12..16, 16..20; effective flag = flags byte == 1', engine='F', units=('caps',)))
+OBLIGATIONS.append(_o('C04.caps.flags', CK + 'c04_caps_flags', 'the real check_capability, for all u32 permitted / inheritable words and every single-bit capability: "ip" / "p" / "i" / no entry per set bit', units=('caps',)))
+OBLIGATIONS.append(_o('C04.extclass', NU + 'c04_extclass', 'the real has_extension: for every 4-character printable ASCII name and the list [.a, .bc]: true exactly when the lower-cased name ends with a listed extension', complete=False, bound='name of 4 ASCII characters, 2 extensions', units=('nameutils',)))
+OBLIGATIONS.append(_o('C04.hidden', NU + 'c04_hidden', 'the real is_hidden (unix, not in an archive): true exactly when the name starts with a dot, for every 2-character printable ASCII name', complete=False, bound='name of 2 ASCII characters', units=('nameutils',)))
+CANARIES = [dict(harness=M + 'canary_mode_must_fail', units=['mode']), dict(harness=CK + 'canary_caps_must_fail', units=['caps']), dict(harness=NU + 'canary_names_must_fail', units=['nameutils'])]
 
 ASSUMPTIONS = [
     'st_mode delivered by lstat / stored in the zip entry is the value passed to the predicates (T4); in the wrapper '
@@ -56,5 +63,5 @@ NOT_COVERED = [
     'that the metadata is the entry own lstat; size, uid/gid, owner names, inode, links, blocks, mtime, xattrs (T4)',
     'is_file / is_dir / is_symlink of real entries (std FileType, trusted)',
     'name/path/dir/abspath decomposition; digests, line_count, is_shebang, CONTAINS (I/O)',
-    'configuration override of the extension lists',
+    'which extension list a class column uses (Config lookup), configuration override of the extension lists',
 ]
